@@ -516,6 +516,9 @@ def run(repo, chk, tier):
     from ..cacheown import check_persistent_state
 
     check_persistent_state(repo, chk, ["tf_pwa/fitfractions.py", "tf_pwa/amp/amp.py"])
+    from ..cacheown import check_class_level_mutables
+
+    check_class_level_mutables(repo, chk, ["tf_pwa/fitfractions.py", "tf_pwa/amp/"])
     clause_a(repo, chk)
     clause_b(repo, chk)
     clause_c(repo, chk)
